@@ -163,11 +163,55 @@ def check_isolation(run: lib.Run):
                                   "spec": "concurrent evaluations on engines with different checkers affected each other (or lookups were shared)"})
 
 
+def check_nested(run: lib.Run):
+    """a relationship checker that, in the middle of a decision of engine A, asks ANOTHER engine B for a decision: B has no
+    checker (its `rel` conditions are false), or its own checker with other answers — the lookups of the two decisions must not mix"""
+    import threading
+    from rbacx.core.engine import Guard
+    rel_pol = {"algorithm": "deny-overrides", "rules": [{"id": "a", "effect": "permit", "actions": ["read"], "resource": {"type": "doc"},
+                                                         "condition": {"rel": "viewer"}}]}
+    req = {"sid": "u1", "roles": [], "sattrs": {}, "action": "read", "rtype": "doc", "rid": "1", "rattrs": {}, "ctx": {}}
+    s, a, r, c = real.make_request(req)
+    for inner_kind in ("no-checker", "denying-checker"):
+        for mode in ("sync", "async"):
+            inner_calls: list = []
+            inner = Guard(rel_pol, relationship_checker=None if inner_kind == "no-checker" else real.TableRel([], False, inner_calls))
+            seen: list = []
+
+            class Asking:
+                def check(self, subject, relation, resource, *, context=None):
+                    if mode == "async":
+                        async def _c():
+                            seen.append((await inner.evaluate_async(s, a, r, c)).allowed)
+                            return True
+                        return _c()
+                    seen.append(inner.evaluate_sync(s, a, r, c).allowed)
+                    return True
+            outer = Guard(rel_pol, relationship_checker=Asking())
+            box: dict = {}
+
+            def go():
+                try:
+                    box["d"] = outer.evaluate_sync(s, a, r, c).allowed
+                except Exception as e:  # noqa: BLE001
+                    box["d"] = "raised:" + type(e).__name__
+            th = threading.Thread(target=go, daemon=True)
+            th.start()
+            th.join(20)
+            run.evaluations += 1
+            run.count("isolation:nested")
+            got = {"outer": box.get("d", "did not return"), "inner": seen}
+            if got != {"outer": True, "inner": [False]}:
+                run.spec_failures.append({"part": "nested decisions", "inner_engine": inner_kind, "checker": mode, "observed": got,
+                                          "expected": {"outer": True, "inner": [False]},
+                                          "spec": "a decision made by another engine inside a checker call saw this engine's checker / memo (or vice versa)"})
+
+
 def check(run: lib.Run, audit: dict) -> int:
     run.rule = ("exhaustive: ordered pairs of 14 rel-condition templates (short/extended form, literal and attribute overrides with/without ':', ctx "
                 "merge, repeated and reordered-ctx lookups, and/or/not) × 3 algorithms × 4 requests × 5 checker tables (all-true, all-false, raising, "
                 "mixed, absent), quick: pairs subsampled 1/3; random grammar policies / nested sets with rel everywhere; 7 API flavours (sync/async "
-                "checkers); isolation probes (data changed between decisions; 40 concurrent evaluate_async on two engines). non-trivial = the checker "
+                "checkers); isolation probes (data changed between decisions; 40 concurrent evaluate_async on two engines; a checker that asks a second engine mid-decision). non-trivial = the checker "
                 "was consulted")
     run.exhaustive = True
     run.assumptions = ["contextvars copy semantics across asyncio.to_thread and event-loop resolution of async checkers are observed, not proved (partial)",
@@ -176,6 +220,7 @@ def check(run: lib.Run, audit: dict) -> int:
         raise lib.CheckError(f"Lean build/audit failed at {audit['stage']}: {audit.get('log') or audit.get('forbidden') or audit.get('bad_axioms')}")
     run_cases(run, audit, scale=run.boost)
     check_isolation(run)
+    check_nested(run)
     violations = []
     if run.disagreements and not run.spec_failures:
         run_cases(run, audit, scale=3)
